@@ -1,5 +1,11 @@
 //! C20 obligations (one clause only): the last-error buffer is empty, or a
 //! NUL-terminated string without interior NUL bytes.
+//!
+//! Abstract view of `CString(v)`: the byte sequence `v`.  Invariant I(v): v is
+//! empty ("no error"), or v.last() == 0 and no other byte of v is 0.  Every
+//! contract below is stated from a symbolic pre-state satisfying I, so a
+//! sequence of writes is covered by induction over operations (within the
+//! stated buffer lengths).
 use super::super::*;
 
 /// I(v): v is empty, or v.last() == 0 and no other byte is 0.
@@ -38,29 +44,18 @@ fn any_state<const P: usize>() -> CString {
     CString(v)
 }
 
-/// K1: append(buf) from any state satisfying I: I again; the old content is
-/// kept; the bytes of buf are copied with every NUL replaced by 0x1a; exactly
-/// one terminating NUL.
-fn append_contract<const P: usize, const L: usize>() {
-    let mut s = any_state::<P>();
-    let old: [u8; P] = {
-        let mut o = [0u8; P];
-        let mut i = 0;
-        while i < P {
-            o[i] = s.0[i];
-            i += 1;
-        }
-        o
-    };
-    let buf: [u8; L] = kani::any();
-    let via_fmt: bool = kani::any();
-    // through both Write impls
-    {
-        use std::io::Write;
-        let r = s.write(&buf);
-        assert!(matches!(r, Ok(n) if n == L));
-        std::mem::forget(r);
+fn snapshot<const P: usize>(s: &CString) -> [u8; P] {
+    let mut o = [0u8; P];
+    let mut i = 0;
+    while i < P {
+        o[i] = s.0[i];
+        i += 1;
     }
+    o
+}
+
+/// The postcondition of one append of `buf` to a state whose content was `old`.
+fn append_post<const P: usize, const L: usize>(s: &CString, old: &[u8; P], buf: &[u8; L]) {
     let v = &s.0;
     assert!(inv(v), "last-error stays NUL-terminated without interior NUL");
     assert!(v.len() == P + L + 1, "old content + new bytes + one terminator");
@@ -72,39 +67,138 @@ fn append_contract<const P: usize, const L: usize>() {
     let mut i = 0;
     while i < L {
         let want = if buf[i] == 0 { 0x1a } else { buf[i] };
-        assert!(v[P + i] == want, "bytes are copied; NUL becomes 0x1a");
+        assert!(v[P + i] == want, "bytes are copied; every NUL becomes 0x1a");
         i += 1;
     }
     assert!(!s.as_c_str().is_null(), "a non-empty message is reported");
-    assert!(s.as_c_str() as *const u8 == s.0.as_ptr());
+    assert!(s.as_c_str() as *const u8 == s.0.as_ptr(), "the C pointer is the start of the buffer");
+}
+
+fn count_nul<const L: usize>(buf: &[u8; L]) -> usize {
+    let mut n = 0;
+    let mut i = 0;
+    while i < L {
+        if buf[i] == 0 {
+            n += 1;
+        }
+        i += 1;
+    }
+    n
+}
+
+/// K1 (io::Write::write -> append): from any state satisfying I with P content
+/// bytes, appending ANY L bytes (all symbolic, so every placement of 0, 1, .. L
+/// NUL bytes is in the domain) re-establishes I, keeps the old content, copies
+/// the bytes with every NUL replaced by 0x1a and reports L bytes written.
+fn append_contract<const P: usize, const L: usize>() {
+    let mut s = any_state::<P>();
+    let old = snapshot::<P>(&s);
+    let buf: [u8; L] = kani::any();
+    {
+        use std::io::Write;
+        let r = s.write(&buf);
+        assert!(matches!(r, Ok(n) if n == L), "write reports the whole chunk as written");
+        std::mem::forget(r);
+        assert!(s.flush().is_ok());
+    }
+    append_post::<P, L>(&s, &old, &buf);
+    let nuls = count_nul::<L>(&buf);
+    kani::cover!(nuls == 0, "no NUL in the appended text");
     if L > 0 {
-        kani::cover!(buf[0] == 0, "NUL in the appended text");
+        kani::cover!(nuls == 1, "one NUL in the appended text");
+        kani::cover!(nuls == L, "only NUL bytes appended");
+    }
+    if L > 1 {
+        kani::cover!(buf[0] == 0 && buf[L - 1] == 0, "first and last appended byte are NUL");
+        kani::cover!(buf[0] != 0 && buf[L - 1] == 0, "a NUL that is not the first of the chunk");
+    }
+    std::mem::forget(s);
+}
+
+macro_rules! append_harness {
+    ($($name:ident: $p:literal, $l:literal, $u:literal;)*) => {
+        $(
+            #[kani::proof]
+            #[kani::unwind($u)]
+            fn $name() {
+                append_contract::<$p, $l>()
+            }
+        )*
+    };
+}
+
+append_harness! {
+    cstring_append__invariant_p0_l0: 0, 0, 4;
+    cstring_append__invariant_p1_l0: 1, 0, 4;
+    cstring_append__invariant_p0_l1: 0, 1, 4;
+    cstring_append__invariant_p0_l2: 0, 2, 5;
+    cstring_append__invariant_p2_l2: 2, 2, 7;
+    cstring_append__invariant_p1_l3: 1, 3, 7;
+    cstring_append__invariant_p3_l4: 3, 4, 10;
+    cstring_append__invariant_p3_l6: 3, 6, 12;
+}
+
+/// K1 through the other entry point (fmt::Write::write_str -> append): any
+/// ASCII text of L bytes (NUL included - "\0" is valid UTF-8).
+fn write_str_contract<const P: usize, const L: usize>() {
+    use std::fmt::Write;
+    let mut s = any_state::<P>();
+    let old = snapshot::<P>(&s);
+    let buf: [u8; L] = kani::any();
+    let mut i = 0;
+    while i < L {
+        kani::assume(buf[i] < 128);
+        i += 1;
+    }
+    let text = unsafe { std::str::from_utf8_unchecked(&buf) };
+    let r = s.write_str(text);
+    assert!(r.is_ok(), "write_str never fails");
+    append_post::<P, L>(&s, &old, &buf);
+    let nuls = count_nul::<L>(&buf);
+    kani::cover!(nuls == 0);
+    if L > 1 {
+        kani::cover!(nuls == L, "text made of NUL characters only");
     }
     std::mem::forget(s);
 }
 
 #[kani::proof]
-#[kani::unwind(6)]
-fn cstring_append__invariant_p0_l2() {
-    append_contract::<0, 2>()
+#[kani::unwind(5)]
+fn cstring_write_str__invariant_p0_l2() {
+    write_str_contract::<0, 2>()
 }
 
 #[kani::proof]
-#[kani::unwind(6)]
-fn cstring_append__invariant_p2_l2() {
-    append_contract::<2, 2>()
+#[kani::unwind(8)]
+fn cstring_write_str__invariant_p2_l3() {
+    write_str_contract::<2, 3>()
 }
 
+/// Two consecutive chunks (the way `write!` delivers a formatted message piece
+/// by piece): the terminator of the first is removed, exactly one remains.
 #[kani::proof]
-#[kani::unwind(6)]
-fn cstring_append__invariant_p1_l0() {
-    append_contract::<1, 0>()
-}
-
-#[kani::proof]
-#[kani::unwind(9)]
-fn cstring_append__invariant_p3_l4() {
-    append_contract::<3, 4>()
+#[kani::unwind(8)]
+fn cstring_append_twice__single_terminator() {
+    use std::io::Write;
+    let mut s = any_state::<1>();
+    let old = snapshot::<1>(&s);
+    let a: [u8; 2] = kani::any();
+    let b: [u8; 2] = kani::any();
+    let r = s.write(&a);
+    std::mem::forget(r);
+    let r = s.write(&b);
+    std::mem::forget(r);
+    let v = &s.0;
+    assert!(inv(v), "last-error stays NUL-terminated without interior NUL");
+    assert!(v.len() == 6 && v[0] == old[0]);
+    let mut i = 0;
+    while i < 2 {
+        assert!(v[1 + i] == if a[i] == 0 { 0x1a } else { a[i] });
+        assert!(v[3 + i] == if b[i] == 0 { 0x1a } else { b[i] });
+        i += 1;
+    }
+    kani::cover!(a[1] == 0 && b[0] == 0 && b[1] == 0);
+    std::mem::forget(s);
 }
 
 /// K2: clear() => empty; as_c_str() is NULL <=> empty.
@@ -115,8 +209,12 @@ fn cstring_clear__null_iff_empty() {
     assert!(!s.as_c_str().is_null());
     s.clear();
     assert!(s.0.is_empty() && s.as_c_str().is_null(), "cleared last-error reads as NULL");
+    assert!(inv(&s.0));
     let e = CString::new();
     assert!(e.as_c_str().is_null() && inv(&e.0));
+    let d = CString::default();
+    assert!(d.as_c_str().is_null() && inv(&d.0));
+    kani::cover!(true);
     std::mem::forget(s);
 }
 
@@ -141,5 +239,11 @@ fn cstring_write_last_error_shape__replaces_and_keeps_invariant() {
     let r = s.write_str("x");
     assert!(r.is_ok());
     assert!(inv(&s.0) && s.0.len() == 5 && s.0[3] == b'x');
+    kani::cover!(b == 0);
+    kani::cover!(b != 0);
     std::mem::forget(s);
 }
+
+// NOT REGISTERED (removed): the same through `write!(s, "{}", msg)` (io::Write::write_fmt -> write_all ->
+// write -> append).  CBMC needs > 13 GB / 200 s for core::fmt's machinery and then reports spurious
+// allocator-model failures inside core::fmt; the formatting layer of std stays in the trusted base.
